@@ -11,6 +11,9 @@ import (
 
 // Return a collection of points representing the centroids of s2 cells that cover the given area between the given levels.
 func s2Points(context *api.Context, area b6.Area, minLevel int, maxLevel int) (b6.Collection[string, b6.Geometry], error) {
+	if err := requireArea("s2-points", area); err != nil {
+		return b6.Collection[string, b6.Geometry]{}, err
+	}
 	coverer := s2.RegionCoverer{MinLevel: minLevel, MaxLevel: maxLevel}
 	cells := make(map[s2.CellID]struct{})
 	for i := 0; i < area.Len(); i++ {
